@@ -41,19 +41,45 @@ enum Rq {
 #[derive(Clone, Debug)]
 enum Flt {
     Field(usize, Rq),
+    /// a Field whose keys all have a type the index cannot convert (error stream)
+    BadKey(usize, Rq),
     Or(Vec<Flt>),
     And(Vec<Flt>),
     Not(Box<Flt>),
 }
 
-/// index 0 is the primary key; 1..=4 are B-tree indexes (U64, Text, U64 array, I64)
-const IDX: [&str; 5] = ["_id", "age", "name", "nums", "lvl"];
+/// index 0 is the primary key; 1..=4 are B-tree indexes (U64, Text, U64 array, I64); 5 does not exist
+const IDX: [&str; 6] = ["_id", "age", "name", "nums", "lvl", "nosuch"];
+const UNKNOWN: usize = 5;
 
 fn to_fv(idx: usize, v: i64) -> Fv {
     match idx {
         2 => Fv::Text(format!("k{:03}", v.max(0))),
         4 => Fv::I64(v),
         _ => Fv::U64(v.max(0) as u64),
+    }
+}
+
+/// keys of a type the index key cannot be converted from
+fn wrong_fv(idx: usize, v: i64) -> Fv {
+    match idx {
+        2 => Fv::U64(v.max(0) as u64),
+        _ => Fv::Text(format!("k{:03}", v.max(0))),
+    }
+}
+
+fn to_range_with(idx: usize, q: &Rq, fv: &dyn Fn(usize, i64) -> Fv) -> RangeQuery<Fv> {
+    match q {
+        Rq::Eq(a) => RangeQuery::Eq(fv(idx, *a)),
+        Rq::Gt(a) => RangeQuery::Gt(fv(idx, *a)),
+        Rq::Ge(a) => RangeQuery::Ge(fv(idx, *a)),
+        Rq::Lt(a) => RangeQuery::Lt(fv(idx, *a)),
+        Rq::Le(a) => RangeQuery::Le(fv(idx, *a)),
+        Rq::Between(a, b) => RangeQuery::Between(fv(idx, *a), fv(idx, *b)),
+        Rq::Include(ks) => RangeQuery::Include(ks.iter().map(|k| fv(idx, *k)).collect()),
+        Rq::Or(qs) => RangeQuery::Or(qs.iter().map(|q| Box::new(to_range_with(idx, q, fv))).collect()),
+        Rq::And(qs) => RangeQuery::And(qs.iter().map(|q| Box::new(to_range_with(idx, q, fv))).collect()),
+        Rq::Not(q) => RangeQuery::Not(Box::new(to_range_with(idx, q, fv))),
     }
 }
 
@@ -75,6 +101,7 @@ fn to_range(idx: usize, q: &Rq) -> RangeQuery<Fv> {
 fn to_filter(f: &Flt) -> Filter {
     match f {
         Flt::Field(i, q) => Filter::Field((IDX[*i].to_string(), to_range(*i, q))),
+        Flt::BadKey(i, q) => Filter::Field((IDX[*i].to_string(), to_range_with(*i, q, &wrong_fv))),
         Flt::Or(fs) => Filter::Or(fs.iter().map(|f| Box::new(to_filter(f))).collect()),
         Flt::And(fs) => Filter::And(fs.iter().map(|f| Box::new(to_filter(f))).collect()),
         Flt::Not(f) => Filter::Not(Box::new(to_filter(f))),
@@ -99,6 +126,7 @@ fn rq_term(q: &Rq) -> Value {
 fn flt_term(f: &Flt) -> Value {
     match f {
         Flt::Field(i, q) => ctor("FField", vec![json!(IDX[*i]), rq_term(q)]),
+        Flt::BadKey(i, q) => ctor("FFieldBad", vec![json!(IDX[*i]), rq_term(q)]),
         Flt::Or(fs) => ctor("FOr", vec![Value::Array(fs.iter().map(flt_term).collect())]),
         Flt::And(fs) => ctor("FAnd", vec![Value::Array(fs.iter().map(flt_term).collect())]),
         Flt::Not(f) => ctor("FNot", vec![flt_term(f)]),
@@ -148,10 +176,49 @@ fn denote(f: &Flt, id: u64, v: &Vals) -> bool {
     match f {
         Flt::Field(0, q) => key_matches(id as i64, q),
         Flt::Field(i, q) => v.keys(*i).iter().any(|k| key_matches(*k, q)),
+        Flt::BadKey(_, _) => false,
         Flt::Or(fs) => fs.iter().any(|f| denote(f, id, v)),
         Flt::And(fs) => !fs.is_empty() && fs.iter().all(|f| denote(f, id, v)),
         Flt::Not(f) => !denote(f, id, v),
     }
+}
+
+/// does the tree name an unknown index or carry an unconvertible key (then an error is legitimate)?
+fn contains_bad(f: &Flt) -> bool {
+    match f {
+        Flt::Field(i, _) => *i == UNKNOWN,
+        Flt::BadKey(_, _) => true,
+        Flt::Or(fs) | Flt::And(fs) => fs.iter().any(contains_bad),
+        Flt::Not(f) => contains_bad(f),
+    }
+}
+
+/// The documented complexity budget, counted independently of the implementation:
+/// depth <= 64 (filter root at 0, a range query one below its Field), nodes <= 4096,
+/// branches (children of And/Or at both levels) <= 1024, Include list <= 4096 keys.
+fn over_budget(f: &Flt) -> bool {
+    fn rq(q: &Rq, depth: usize, nodes: &mut usize, branches: &mut usize, over: &mut bool) {
+        if depth > 64 { *over = true; return; }
+        *nodes += 1;
+        match q {
+            Rq::Include(ks) => { if ks.len() > 4096 { *over = true; } }
+            Rq::Or(qs) | Rq::And(qs) => { *branches += qs.len(); for q in qs { rq(q, depth + 1, nodes, branches, over); } }
+            Rq::Not(q) => rq(q, depth + 1, nodes, branches, over),
+            _ => {}
+        }
+    }
+    fn fl(f: &Flt, depth: usize, nodes: &mut usize, branches: &mut usize, over: &mut bool) {
+        if depth > 64 { *over = true; return; }
+        *nodes += 1;
+        match f {
+            Flt::Field(_, q) | Flt::BadKey(_, q) => rq(q, depth + 1, nodes, branches, over),
+            Flt::Or(fs) | Flt::And(fs) => { *branches += fs.len(); for f in fs { fl(f, depth + 1, nodes, branches, over); } }
+            Flt::Not(f) => fl(f, depth + 1, nodes, branches, over),
+        }
+    }
+    let (mut n, mut b, mut over) = (0usize, 0usize, false);
+    fl(f, 0, &mut n, &mut b, &mut over);
+    over || n > 4096 || b > 1024
 }
 
 // ------------------------------------------------------------------------------------------ generators
@@ -241,6 +308,37 @@ impl Gen {
                 }
                 _ => Flt::Not(Box::new(self.flt(depth - 1))),
             }
+        }
+    }
+
+    /// a filter that names an unknown index or carries keys of the wrong type, alone or inside a tree
+    fn bad_flt(&mut self) -> Flt {
+        let leaf = match self.rng.below(4) {
+            0 => Flt::Field(UNKNOWN, self.rq(UNKNOWN, 1)),
+            1 => Flt::BadKey(UNKNOWN, Rq::Eq(1)),
+            2 => {
+                let idx = self.rng.below(5) as usize;
+                let a = self.val(idx);
+                let b = self.val(idx);
+                match self.rng.below(3) {
+                    0 => Flt::BadKey(idx, Rq::Eq(a)),
+                    1 => Flt::BadKey(idx, Rq::Or(vec![Rq::Ge(a), Rq::Between(a, b)])),
+                    _ => Flt::BadKey(idx, Rq::Not(Box::new(Rq::Include(vec![a, b, a])))),
+                }
+            }
+            _ => Flt::BadKey(self.rng.below(5) as usize, Rq::Lt(3)),
+        };
+        let other = self.flt(1);
+        let empty = Flt::Field(1, Rq::Between(5, 2)); // inverted range: matches nothing
+        match self.rng.below(8) {
+            0 | 1 => leaf,
+            2 => Flt::And(vec![other, leaf]),
+            3 => Flt::And(vec![leaf, other]),
+            // And stops at an empty intersection before it reaches the bad operand
+            4 => Flt::And(vec![Flt::Field(0, Rq::Include(vec![])), other, leaf]),
+            5 => Flt::Or(vec![other, leaf]),
+            6 => Flt::Not(Box::new(leaf)),
+            _ => Flt::And(vec![other, empty, Flt::Or(vec![leaf])]),
         }
     }
 
@@ -422,10 +520,18 @@ fn coll_term(b: &Built) -> (Value, Vec<String>) {
         if got != want {
             problems.push(format!("index {} dump {got:?} differs from the documents {want:?}", IDX[i]));
         }
-        let entries: Vec<Value> = dump.iter().map(|(k, p)| tup(vec![json!(k), json!(p)])).collect();
+        let entries: Vec<Value> = dump
+            .iter()
+            .map(|(k, p)| json!(format!("{} {}", k, zs(p))))
+            .collect();
         idxs.push(tup(vec![json!(IDX[i]), Value::Array(entries)]));
     }
-    (tup(vec![json!(sorted), Value::Array(idxs)]), problems)
+    (tup(vec![json!(zs(&sorted)), Value::Array(idxs)]), problems)
+}
+
+/// integer lists travel to the model as blank-separated decimal strings (decoded by Run.parse_zs)
+fn zs(xs: &[u64]) -> String {
+    xs.iter().map(|x| x.to_string()).collect::<Vec<_>>().join(" ")
 }
 
 // ------------------------------------------------------------------------------------------ queries
@@ -455,7 +561,7 @@ fn entry_term(e: &Entry) -> Value {
             vec![
                 match s {
                     None => Value::Null,
-                    Some((_, c)) => some(json!(c)),
+                    Some((_, c)) => some(json!(zs(c))),
                 },
                 lim_term(l),
             ],
@@ -511,7 +617,19 @@ async fn run_impl(coll: &Collection, f: &Flt, e: &Entry) -> Result<Vec<u64>, Str
     };
     match AssertUnwindSafe(fut).catch_unwind().await {
         Ok(Ok(v)) => Ok(v),
-        Ok(Err(err)) => Err(format!("error: {err}")),
+        Ok(Err(err)) => {
+            let m = format!("{err}");
+            // small enum: budget rejection / unknown index / key conversion
+            Err(if m.contains("exceeds maximum") || m.contains("exceeds the maximum") {
+                "EBudget".to_string()
+            } else if m.contains("not found") {
+                "EIndex".to_string()
+            } else if m.contains("expected ") {
+                "EType".to_string()
+            } else {
+                format!("other: {m}")
+            })
+        }
         Err(_) => Err("panic".to_string()),
     }
 }
@@ -527,6 +645,9 @@ fn entries_for(g: &mut Gen, b: &Built, n_match: usize, big: bool) -> Vec<Entry> 
         ls.push(Some(g.rng.range(1, n_match as i64 - 1) as usize)); // a page that cuts
     }
     ls.push(Some(g.rng.range(0, n as i64 + 1) as usize));
+    if n <= 8 {
+        ls.extend((0..=n + 1).map(Some)); // every limit 0..n+1
+    }
     if big || g.rng.chance(1, 8) {
         ls.push(Some(MAX + 1));
         ls.push(Some(MAX));
@@ -555,10 +676,177 @@ fn entries_for(g: &mut Gen, b: &Built, n_match: usize, big: bool) -> Vec<Entry> 
 }
 
 fn is_btree_leaf(f: &Flt) -> bool {
-    matches!(f, Flt::Field(i, _) if *i > 0)
+    matches!(f, Flt::Field(i, _) if *i > 0 && *i != UNKNOWN)
 }
 
 // ------------------------------------------------------------------------------------------ main
+/// the over-budget / at-budget stream: (filter, Coq term as raw text, what it probes)
+fn budget_stream() -> Vec<(Flt, String, &'static str)> {
+    fn nots(k: usize, f: Flt) -> Flt { (0..k).fold(f, |f, _| Flt::Not(Box::new(f))) }
+    fn rnots(k: usize, q: Rq) -> Rq { (0..k).fold(q, |q, _| Rq::Not(Box::new(q))) }
+    let leaf = || Flt::Field(1, Rq::Eq(1));
+    let leaf_t = "(FField \"age\" (REq 1%Z))";
+    let mut v: Vec<(Flt, String, &'static str)> = vec![];
+    for k in [63usize, 64, 65] {
+        v.push((nots(k, leaf()), format!("(Nat.iter {k} FNot {leaf_t})"), "filter depth"));
+        v.push((Flt::Field(1, rnots(k, Rq::Eq(1))), format!("(FField \"age\" (Nat.iter {k} RNot (REq 1%Z)))"), "range depth"));
+    }
+    for k in [1024usize, 1025] {
+        v.push((Flt::Or((0..k).map(|_| leaf()).collect()), format!("(FOr (List.repeat {leaf_t} {k}))"), "filter branches"));
+        v.push((Flt::Field(1, Rq::Or((0..k).map(|_| Rq::Eq(1)).collect())),
+                format!("(FField \"age\" (ROr (List.repeat (REq 1%Z) {k})))"), "range branches"));
+        v.push((Flt::And(vec![Flt::Or((0..k / 2).map(|_| leaf()).collect()), Flt::Field(1, Rq::And((0..k - k / 2).map(|_| Rq::Ge(0)).collect()))]),
+                format!("(FAnd [FOr (List.repeat {leaf_t} {}); FField \"age\" (RAnd (List.repeat (RGe 0%Z) {}))])", k / 2, k - k / 2), "branches summed over both levels (+2)"));
+    }
+    for k in [4096usize, 4097] {
+        v.push((Flt::Field(1, Rq::Include(vec![1; k])), format!("(FField \"age\" (RInclude (List.repeat 1%Z {k})))"), "include keys"));
+    }
+    // nodes: 66 children of 62 nodes each + the root = 4093; a last child of 3 / 4 nodes gives 4096 / 4097
+    let chain = || nots(50, Flt::Field(1, rnots(10, Rq::Eq(1))));
+    let chain_t = format!("(Nat.iter 50 FNot (FField \"age\" (Nat.iter 10 RNot (REq 1%Z))))");
+    for extra in [1usize, 2] {
+        let mut kids: Vec<Flt> = (0..66).map(|_| chain()).collect();
+        kids.push(nots(extra, leaf()));
+        v.push((Flt::Or(kids), format!("(FOr (List.repeat {chain_t} 66 ++ [Nat.iter {extra} FNot {leaf_t}]))"), "nodes"));
+    }
+    v
+}
+
+#[derive(Default)]
+struct Stats {
+    evaluations: usize,
+    cutting: usize,
+    oracle_failures: usize,
+    failure_classes: BTreeMap<String, usize>,
+    failures: Vec<Value>,
+    shape: BTreeMap<String, usize>,
+    entry_kinds: BTreeMap<String, usize>,
+    limit_kinds: BTreeMap<String, usize>,
+    outcomes: BTreeMap<String, usize>,
+}
+
+fn count_leaves(f: &Flt, h: &mut BTreeMap<String, usize>) {
+    fn rq(q: &Rq, lvl: &str, h: &mut BTreeMap<String, usize>) {
+        let k = match q {
+            Rq::Eq(_) => "Eq", Rq::Gt(_) => "Gt", Rq::Ge(_) => "Ge", Rq::Lt(_) => "Lt", Rq::Le(_) => "Le",
+            Rq::Between(a, b) => if a > b { "Between-inverted" } else { "Between" },
+            Rq::Include(ks) => {
+                let mut d = ks.clone(); d.sort(); d.dedup();
+                if ks.is_empty() { "Include-empty" } else if d.len() < ks.len() { "Include-with-duplicates" } else { "Include" }
+            }
+            Rq::Or(qs) => { for q in qs { rq(q, lvl, h); } if qs.is_empty() { "range-Or-empty" } else { "range-Or" } }
+            Rq::And(qs) => { for q in qs { rq(q, lvl, h); } if qs.is_empty() { "range-And-empty" } else { "range-And" } }
+            Rq::Not(q) => { rq(q, lvl, h); "range-Not" }
+        };
+        *h.entry(format!("{lvl}{k}")).or_default() += 1;
+    }
+    match f {
+        Flt::Field(i, q) | Flt::BadKey(i, q) => rq(q, if *i == 0 { "_id:" } else { "" }, h),
+        Flt::Or(fs) => { for f in fs { count_leaves(f, h); } *h.entry(if fs.is_empty() { "filter-Or-empty" } else { "filter-Or" }.into()).or_default() += 1; }
+        Flt::And(fs) => { for f in fs { count_leaves(f, h); } *h.entry(if fs.is_empty() { "filter-And-empty" } else { "filter-And" }.into()).or_default() += 1; }
+        Flt::Not(f) => { count_leaves(f, h); *h.entry("filter-Not".into()).or_default() += 1; }
+    }
+}
+
+/// Runs every entry of one filter on the implementation, judges it with the oracle, returns (entries, obs, cuts).
+async fn run_group(st: &mut Stats, built: &Built, ci: usize, f: &Flt, entries: &[Entry], note: &str) -> (Vec<Value>, Vec<Value>, Vec<bool>) {
+    let full: Vec<u64> = built.docs.iter().filter(|(id, v)| denote(f, **id, v)).map(|(id, _)| *id).collect();
+    let bad = contains_bad(f);
+    let over = over_budget(f);
+    let all_ok = run_impl(&built.coll, f, &Entry::All).await.as_deref() == Ok(&full[..]);
+    let (mut es, mut obs, mut cuts_v) = (vec![], vec![], vec![]);
+    for e in entries {
+        let want = expected(&full, &built.docs, f, e);
+        let got = run_impl(&built.coll, f, e).await;
+        st.evaluations += 1;
+        let (ek, l) = match e {
+            Entry::First(l) => ("query_ids", Some(*l)),
+            Entry::Last(l) => ("query_last_ids", Some(*l)),
+            Entry::All => ("query_all_ids", None),
+            Entry::Search(None, l) => ("search_ids(filter only)", Some(*l)),
+            Entry::Search(Some(_), l) => ("search_ids(text + filter)", Some(*l)),
+        };
+        *st.entry_kinds.entry(ek.to_string()).or_default() += 1;
+        if let Some(l) = l {
+            let n = built.docs.len();
+            let k = match l {
+                None => "None",
+                Some(0) => "0",
+                Some(x) if x > MAX => "MAX+1",
+                Some(x) if x == MAX => "MAX",
+                Some(x) if x == n + 1 => "n+1",
+                Some(x) if x <= n => "1..n",
+                _ => "other",
+            };
+            *st.limit_kinds.entry(k.to_string()).or_default() += 1;
+        }
+        let lim = match e {
+            Entry::First(l) | Entry::Last(l) => Some(l.unwrap_or(MAX).min(MAX)),
+            Entry::Search(_, l) => Some(l.unwrap_or(10).min(MAX)),
+            Entry::All => None,
+        };
+        let cuts = !over && !bad && lim.is_some_and(|l| l > 0 && l < full.len());
+        if cuts {
+            st.cutting += 1;
+        }
+        // the oracle: within budget and well-formed -> exactly the set-algebra page; over budget -> rejected
+        // as such; an unknown index / unconvertible key may fail, but an Ok answer must still be the page
+        // (the offending leaf reads as the empty set)
+        let ok = if over {
+            matches!(&got, Err(k) if k == "EBudget")
+        } else {
+            match &got {
+                Ok(v) => *v == want,
+                Err(k) => bad && (k == "EIndex" || k == "EType"),
+            }
+        };
+        *st.outcomes.entry(match &got { Ok(_) => "ok".to_string(), Err(k) => k.split(':').next().unwrap_or("other").to_string() }).or_default() += 1;
+        if !ok {
+            st.oracle_failures += 1;
+            let class = if over || matches!(&got, Err(k) if k == "EBudget") {
+                "complexity-budget"
+            } else if got.is_err() {
+                "error-or-panic"
+            } else if matches!(e, Entry::All) {
+                "match-set"
+            } else if is_btree_leaf(f) && all_ok && !matches!(e, Entry::Search(Some(_), _)) {
+                "btree-leaf-limit-before-sort"
+            } else if matches!(e, Entry::Search(Some(_), _)) {
+                "search-restriction"
+            } else if all_ok {
+                "page-not-an-end-of-full-result"
+            } else {
+                "match-set"
+            };
+            *st.failure_classes.entry(class.to_string()).or_default() += 1;
+            if st.failures.len() < 12 || (st.failure_classes[class] == 1 && st.failures.len() < 24) {
+                let ftxt = format!("{:?}", to_filter(f));
+                st.failures.push(json!({
+                    "class": class,
+                    "what": format!("{} returned {:?}, expected {}", entry_name(e), got.as_ref().map(|v| &v[..v.len().min(40)]),
+                                    if over { "a complexity-budget rejection".to_string() } else { format!("{:?} (set-algebra reading)", &want[..want.len().min(40)]) }),
+                    "collection": built.docs.iter().map(|(id, v)| json!({"_id": id, "age": v.age, "name": v.name, "nums": v.nums, "lvl": v.lvl})).take(64).collect::<Vec<_>>(),
+                    "documents": built.docs.len(),
+                    "filter": if ftxt.len() > 1200 { format!("{} ... ({note})", &ftxt[..1200]) } else { ftxt },
+                    "entry": format!("{e:?}").chars().take(300).collect::<String>(),
+                    "full_match_set": full.iter().take(64).collect::<Vec<_>>(),
+                    "expected": want.iter().take(64).collect::<Vec<_>>(),
+                    "observed": format!("{:?}", got.as_ref().map(|v| v.iter().take(64).collect::<Vec<_>>())),
+                    "collection_index": ci,
+                }));
+            }
+        }
+        es.push(entry_term(e));
+        obs.push(match got {
+            Ok(v) => ctor("OOk", vec![json!(zs(&v))]),
+            Err(k) if k == "EBudget" || k == "EIndex" || k == "EType" => ctor("OErr", vec![ctor(&k, vec![])]),
+            Err(_) => json!({"raw": "(OOk \"-1\")"}), // panic / unclassified error: never equal to a model value
+        });
+        cuts_v.push(cuts);
+    }
+    (es, obs, cuts_v)
+}
+
 #[tokio::main]
 async fn main() {
     let args: Vec<String> = std::env::args().collect();
@@ -571,15 +859,14 @@ async fn main() {
     let mut out = std::io::BufWriter::new(std::fs::File::create(&out_path).expect("out"));
     let mut rng = Rng::from_env();
 
-    let mut evaluations = 0usize;
-    let mut cutting = 0usize; // evaluations whose limit is smaller than the match set
-    let mut failures: Vec<Value> = vec![];
-    let mut oracle_failures = 0usize;
-    let mut failure_classes: BTreeMap<String, usize> = BTreeMap::new();
-    let mut shape: BTreeMap<String, usize> = BTreeMap::new();
+    let mut st = Stats::default();
     let mut sizes: BTreeMap<usize, usize> = BTreeMap::new();
     let mut dump_problems: Vec<String> = vec![];
-    let mut key_id_inversions = 0usize; // collections where key order and id order disagree somewhere
+    let mut key_id_inversions = 0usize;
+    let mut leaf_kinds: BTreeMap<String, usize> = BTreeMap::new();
+    let (mut docs_total, mut docs_missing, mut docs_array_multi, mut docs_array_empty, mut docs_dup_key) = (0usize, 0usize, 0usize, 0usize, 0usize);
+    let (mut n_bad_filters, mut n_budget_filters, mut n_reshaped) = (0usize, 0usize, 0usize);
+    let mut state_changes_after_rejected = 0usize;
 
     for ci in 0..(n_colls + 1 + big) {
         let is_big = ci > n_colls;
@@ -601,16 +888,29 @@ async fn main() {
         if ages.windows(2).any(|w| w[0] > w[1]) {
             key_id_inversions += 1;
         }
+        let mut seen_age = BTreeSet::new();
+        for v in built.docs.values() {
+            docs_total += 1;
+            if v.age.is_none() || v.name.is_none() || v.lvl.is_none() { docs_missing += 1; }
+            if v.nums.len() >= 2 { docs_array_multi += 1; }
+            if v.nums.is_empty() { docs_array_empty += 1; }
+            if let Some(a) = v.age { if !seen_age.insert(a) { docs_dup_key += 1; } }
+        }
         let (cterm, problems) = coll_term(&built);
         dump_problems.extend(problems);
 
-        let mut filters: Vec<Flt> = vec![];
+        // (filter, optional raw Coq term, note)
+        let mut filters: Vec<(Flt, Option<String>, &'static str)> = vec![];
         if ci == 0 {
             let leaf = Flt::Field(1, Rq::Ge(0));
-            filters.push(leaf.clone());
-            filters.push(Flt::And(vec![leaf.clone()]));
-            filters.push(Flt::Or(vec![leaf.clone()]));
-            filters.push(Flt::Not(Box::new(Flt::Not(Box::new(leaf)))));
+            filters.push((leaf.clone(), None, ""));
+            filters.push((Flt::And(vec![leaf.clone()]), None, ""));
+            filters.push((Flt::Or(vec![leaf.clone()]), None, ""));
+            filters.push((Flt::Not(Box::new(Flt::Not(Box::new(leaf)))), None, ""));
+            for (f, t, note) in budget_stream() {
+                n_budget_filters += 1;
+                filters.push((f, Some(t), note));
+            }
         } else {
             let nf = if is_big { n_filters / 2 } else { n_filters };
             for _ in 0..nf {
@@ -618,86 +918,61 @@ async fn main() {
                 let f = g.flt(d);
                 // logically equal re-shapings of the same filter must give the same pages
                 match g.rng.below(12) {
-                    0 => filters.push(Flt::And(vec![f.clone()])),
-                    1 => filters.push(Flt::Or(vec![f.clone()])),
-                    2 => filters.push(Flt::Not(Box::new(Flt::Not(Box::new(f.clone()))))),
+                    0 => { n_reshaped += 1; filters.push((Flt::And(vec![f.clone()]), None, "")) }
+                    1 => { n_reshaped += 1; filters.push((Flt::Or(vec![f.clone()]), None, "")) }
+                    2 => { n_reshaped += 1; filters.push((Flt::Not(Box::new(Flt::Not(Box::new(f.clone())))), None, "")) }
                     _ => {}
                 }
-                filters.push(f);
+                filters.push((f, None, ""));
+            }
+            // the error stream: unknown index / unconvertible key, alone and inside trees
+            for _ in 0..(if is_big { 1 } else { 1 + nf / 4 }) {
+                n_bad_filters += 1;
+                filters.push((g.bad_flt(), None, "error stream"));
             }
         }
 
-        let mut queries: Vec<Value> = vec![];
+        let before = (built.coll.ids(), (1..=4).map(|i| dump_index(&built.coll, i)).collect::<Vec<_>>());
+        let mut groups: Vec<Value> = vec![];
         let mut obs: Vec<Value> = vec![];
-        for f in &filters {
-            let full: Vec<u64> = built.docs.iter().filter(|(id, v)| denote(f, **id, v)).map(|(id, _)| *id).collect();
+        let mut cuts: Vec<Value> = vec![];
+        for (f, raw, note) in &filters {
             let kind = match f {
                 Flt::Field(0, _) => "id-leaf",
+                Flt::Field(UNKNOWN, _) => "unknown-index-leaf",
                 Flt::Field(_, _) => "btree-leaf",
+                Flt::BadKey(_, _) => "bad-key-leaf",
                 Flt::Or(_) => "or",
                 Flt::And(_) => "and",
                 Flt::Not(_) => "not",
             };
-            *shape.entry(kind.to_string()).or_default() += 1;
-            let entries = if ci == 0 {
+            *st.shape.entry(kind.to_string()).or_default() += 1;
+            if raw.is_none() {
+                count_leaves(f, &mut leaf_kinds);
+            }
+            let n_match = built.docs.iter().filter(|(id, v)| denote(f, **id, v)).count();
+            let entries = if raw.is_some() {
+                vec![Entry::All, Entry::First(None), Entry::Last(Some(1)), Entry::First(Some(0)), Entry::Search(None, Some(1))]
+            } else if ci == 0 {
                 vec![Entry::All, Entry::First(Some(2)), Entry::Last(Some(2)), Entry::First(None), Entry::Search(None, Some(1))]
             } else {
-                entries_for(&mut g, &built, full.len(), is_big)
+                entries_for(&mut g, &built, n_match, is_big)
             };
-            let all_ok = run_impl(&built.coll, f, &Entry::All).await.as_deref() == Ok(&full[..]);
-            for e in &entries {
-                let want = expected(&full, &built.docs, f, e);
-                let got = run_impl(&built.coll, f, e).await;
-                evaluations += 1;
-                let lim = match e {
-                    Entry::First(l) | Entry::Last(l) => Some(l.unwrap_or(MAX).min(MAX)),
-                    Entry::Search(_, l) => Some(l.unwrap_or(10).min(MAX)),
-                    Entry::All => None,
-                };
-                let cuts = lim.is_some_and(|l| l > 0 && l < full.len());
-                if cuts {
-                    cutting += 1;
-                }
-                let ok = got.as_ref().is_ok_and(|v| *v == want);
-                if !ok {
-                    oracle_failures += 1;
-                    let class = if got.is_err() {
-                        "error-or-panic"
-                    } else if matches!(e, Entry::All) {
-                        "match-set"
-                    } else if is_btree_leaf(f) && all_ok && !matches!(e, Entry::Search(Some(_), _)) {
-                        "btree-leaf-limit-before-sort"
-                    } else if matches!(e, Entry::Search(Some(_), _)) {
-                        "search-restriction"
-                    } else if all_ok {
-                        "page-not-an-end-of-full-result"
-                    } else {
-                        "match-set"
-                    };
-                    *failure_classes.entry(class.to_string()).or_default() += 1;
-                    if failures.len() < 12 || (failure_classes[class] == 1 && failures.len() < 24) {
-                        failures.push(json!({
-                            "class": class,
-                            "what": format!("{} returned {:?}, the set-algebra reading gives {:?}", entry_name(e), got, want),
-                            "collection": built.docs.iter().map(|(id, v)| json!({"_id": id, "age": v.age, "name": v.name, "nums": v.nums, "lvl": v.lvl})).take(64).collect::<Vec<_>>(),
-                            "documents": built.docs.len(),
-                            "filter": format!("{:?}", to_filter(f)),
-                            "entry": format!("{e:?}"),
-                            "full_match_set": full.iter().take(64).collect::<Vec<_>>(),
-                            "expected": want.iter().take(64).collect::<Vec<_>>(),
-                            "observed": format!("{:?}", got.as_ref().map(|v| v.iter().take(64).collect::<Vec<_>>())),
-                            "collection_index": ci,
-                        }));
-                    }
-                }
-                queries.push(tup(vec![flt_term(f), entry_term(e), json!(cuts)]));
-                obs.push(match got {
-                    Ok(v) => some(json!(v)),
-                    Err(_) => Value::Null,
-                });
-            }
+            let (es, os, cs) = run_group(&mut st, &built, ci, f, &entries, note).await;
+            let fterm = match raw {
+                Some(t) => json!({"raw": t}),
+                None => flt_term(f),
+            };
+            groups.push(tup(vec![fterm, Value::Array(es)]));
+            obs.push(Value::Array(os));
+            cuts.push(json!(cs));
         }
-        let line = json!({"kind": "model", "case": tup(vec![cterm, Value::Array(queries)]), "obs": Value::Array(obs),
+        // a rejected (or failing) query changes nothing: ids and every index as before
+        let after = (built.coll.ids(), (1..=4).map(|i| dump_index(&built.coll, i)).collect::<Vec<_>>());
+        if before != after {
+            state_changes_after_rejected += 1;
+        }
+        let line = json!({"kind": "model", "case": tup(vec![cterm, Value::Array(groups)]), "obs": Value::Array(obs), "cuts": cuts,
                           "docs": built.docs.len(), "witness": ci == 0});
         writeln!(out, "{line}").unwrap();
         let _ = built.db.close().await;
@@ -706,12 +981,20 @@ async fn main() {
     let summary = json!({
         "kind": "summary",
         "collections": n_colls + 1 + big,
-        "evaluations": evaluations,
-        "cutting_evaluations": cutting,
-        "oracle_failures": oracle_failures,
-        "failure_classes": failure_classes,
-        "failures": failures,
-        "top_level_shapes": shape,
+        "evaluations": st.evaluations,
+        "cutting_evaluations": st.cutting,
+        "oracle_failures": st.oracle_failures,
+        "failure_classes": st.failure_classes,
+        "failures": st.failures,
+        "top_level_shapes": st.shape,
+        "entry_points": st.entry_kinds,
+        "limits": st.limit_kinds,
+        "outcomes": st.outcomes,
+        "node_kinds": leaf_kinds,
+        "documents": {"total": docs_total, "with_a_missing_indexed_value": docs_missing, "with_array_of_2_or_more_keys": docs_array_multi,
+                      "with_empty_array": docs_array_empty, "sharing_an_age_key_with_an_earlier_document": docs_dup_key},
+        "streams": {"error_stream_filters": n_bad_filters, "budget_stream_filters": n_budget_filters, "reshaped_filters": n_reshaped},
+        "collections_whose_state_changed_during_queries": state_changes_after_rejected,
         "collection_sizes": sizes,
         "collections_with_key_order_not_id_order": key_id_inversions,
         "dump_problems": dump_problems.iter().take(5).collect::<Vec<_>>(),
